@@ -14,8 +14,10 @@
 //! * always: the survivors are a subset of the input with unchanged status.
 //!
 //! Open in the statement and therefore accepted either way: when all non-relay paths
-//! failed but relay paths exist ("every path has failed" may or may not cover relay
-//! paths, which never hole-punch), both "all failed paths removed" and "30 kept" pass.
+//! failed and every relay path carries the failed status too ("every path has failed" may
+//! or may not cover relay paths, which never hole-punch), both "all failed paths removed"
+//! and "30 kept" pass.  If some relay path has *not* failed, not every path has failed and
+//! all failed paths must be removed.
 
 use std::{
     collections::BTreeMap,
@@ -239,8 +241,15 @@ fn run_case(rep: &Report, cnt: &mut Cnt, ctx: &Ctx, entries: &[Entry]) {
         if n_survivors != 30 {
             viol("C23:all-failed-not-30-kept", format!("every path failed but {n_survivors} survive"));
         }
+    } else if all_failed && (0..n_total).any(|i| is_relay(&entries[i]) && entries[i].status != 2) {
+        // a relay path that has not failed exists, so "every path has failed" is false:
+        // every failed path must go (the relay path keeps the set non-empty)
+        cnt.add("branch.all_non_relay_failed_relay_alive", 1);
+        if failed_surviving > 0 {
+            viol("C23:failed-path-survives(all-non-relay-failed,relay-path-not-failed)", format!("{failed_surviving} of {n_failed} failed paths survive although a relay path that has not failed exists"));
+        }
     } else if all_failed {
-        // open in the statement, see module docs
+        // every relay path failed as well: open in the statement, see module docs
         cnt.add("branch.all_failed_with_relay(either accepted)", 1);
         if nonrelay_surviving == 0 {
             cnt.add("branch.all_failed_with_relay.all_non_relay_removed", 1);
